@@ -8,8 +8,10 @@ package ordgen
 import (
 	"bytes"
 	"context"
+	"encoding/json"
 	"fmt"
 	"math/big"
+	"strings"
 
 	"github.com/libsv/go-bk/bec"
 	"github.com/libsv/go-bk/crypto"
@@ -43,6 +45,72 @@ type U struct {
 	Sats   uint64 `json:"sats"`
 	Script string `json:"script"`
 	Key    Key    `json:"key"`
+}
+
+// MarshalJSON: the same fields; a script longer than 600 bytes is written run-length compressed as "script_rle"
+// (hex, with every run of 32 or more equal bytes written as "[<byte hex>x<count>]") instead of "script", so that
+// scenarios spending outputs with 64 KiB payloads stay small in cases.jsonl, samples and replay files.
+func (u U) MarshalJSON() ([]byte, error) {
+	type plain U
+	raw := common.Unhex(u.Script)
+	if len(raw) <= 600 {
+		return json.Marshal(plain(u))
+	}
+	return json.Marshal(struct {
+		Txid      string `json:"txid"`
+		Vout      uint32 `json:"vout"`
+		Sats      uint64 `json:"sats"`
+		ScriptRLE string `json:"script_rle"`
+		ScriptLen int    `json:"script_len"`
+		Key       Key    `json:"key"`
+	}{u.Txid, u.Vout, u.Sats, RLEHex(raw), len(raw), u.Key})
+}
+
+// RLEHex: hex with runs of 32 or more equal bytes written as "[<byte hex>x<count>]".
+func RLEHex(b []byte) string {
+	var sb strings.Builder
+	for i := 0; i < len(b); {
+		j := i
+		for j < len(b) && b[j] == b[i] {
+			j++
+		}
+		if j-i >= 32 {
+			fmt.Fprintf(&sb, "[%02xx%d]", b[i], j-i)
+		} else {
+			sb.WriteString(common.Hex(b[i:j]))
+		}
+		i = j
+	}
+	return sb.String()
+}
+
+// Push: the minimal push of d as Script.AppendPushData has to encode it (direct length up to 75 bytes, then
+// OP_PUSHDATA1 / 2 / 4), written here independently of the library. An empty d is the single byte OP_0.
+func Push(d []byte) []byte {
+	n := len(d)
+	var s []byte
+	switch {
+	case n <= 75:
+		s = []byte{byte(n)}
+	case n <= 0xff:
+		s = []byte{0x4c, byte(n)}
+	case n <= 0xffff:
+		s = []byte{0x4d, byte(n), byte(n >> 8)}
+	default:
+		s = []byte{0x4e, byte(n), byte(n >> 8), byte(n >> 16), byte(n >> 24)}
+	}
+	return append(s, d...)
+}
+
+// InscriptionScript: P2PKH(h20) OP_FALSE OP_IF "ord" OP_1 <content type> OP_0 <data> OP_ENDIF with pushes of any length
+// (feegen.Inscription only writes direct pushes).
+func InscriptionScript(h20, ctype, data []byte) []byte {
+	s := feegen.P2PKH(h20)
+	s = append(s, 0x00, 0x63, 0x03, 'o', 'r', 'd', 0x51)
+	s = append(s, Push(ctype)...)
+	s = append(s, 0x00)
+	s = append(s, Push(data)...)
+	return append(s, 0x68)
 }
 
 func (u U) Coq() string {
